@@ -88,8 +88,24 @@ def _enumerated(name, props, bound, body, functions):
         res = framework.ObResult(o.name)
         try:
             cases, bad = body()
-        except Exception:
+        except Exception as e:
             import traceback
+            frames = traceback.extract_tb(e.__traceback__)
+            here = os.path.dirname(os.path.dirname(os.path.abspath(__file__)))
+            repo = os.path.dirname(os.path.dirname(os.path.abspath(verif.axis.__file__)))
+            last_mine = max([i for i, f in enumerate(frames) if f.filename.startswith(here + os.sep)] or [-1])
+            last_repo = max([i for i, f in enumerate(frames) if f.filename.startswith(repo + os.sep) and not f.filename.startswith(here + os.sep)] or [-1])
+            if last_repo > last_mine:
+                # the real code raised on an input of the enumeration: a violation with that input's exception, not a checker error
+                f = frames[last_repo]
+                bad = {"raised-by-the-real-code": "%s: %s" % (type(e).__name__, e), "at": "%s:%d in %s" % (os.path.relpath(f.filename, repo), f.lineno, f.name)}
+                res.paths = res.cases = 0
+                res.status = "refuted"
+                res.witness = {"_case": bad}
+                res.replay = {"outcome": "raise", "observed": str(bad)[:300], "failed": ["enumeration"]}
+                res.goals.append(framework.GoalResult("enumeration", "sat", time.time() - t0, backend="concrete-enumeration", path=0, note=str(bad)[:300]))
+                res.seconds = time.time() - t0
+                return res
             res.status = "error"
             res.note = traceback.format_exc()
             return res
@@ -135,7 +151,17 @@ def _bucket(axis_name):
                 for sod in SECONDS_OF_DAY:
                     times.append(z * 86400 + sod)
                     want.append(spec(z, sod, y, m, d))
-            got = ax.compute_from_times(_np.array(times))
+            try:
+                got = ax.compute_from_times(_np.array(times))
+            except Exception as e:
+                # the real function raised: find the first initialisation time of the chunk for which it does
+                for t in times:
+                    try:
+                        ax.compute_from_times(_np.array([t]))
+                    except Exception as e1:
+                        return cases, {"axis": axis_name, "unixtime": int(t), "raised": "%s: %s" % (type(e1).__name__, e1),
+                                       "utc": str(datetime.datetime(1970, 1, 1) + datetime.timedelta(seconds=int(t)))}
+                return cases, {"axis": axis_name, "raised-on-a-vector-of-times": "%s: %s" % (type(e).__name__, e)}
             cases += len(times)
             got = _np.asarray(got, float)
             want = _np.asarray(want, float)
